@@ -11,6 +11,8 @@ import NeoModel.Proofs.VmAcctUnwind
 import NeoModel.Proofs.VmAcctDepth
 import NeoModel.Proofs.VmAcctGasSim
 import NeoModel.Proofs.VmAcctTry
+import NeoModel.Proofs.VmAcctAlign
+import NeoModel.Proofs.VmAcctGasZero
 import NeoModel.Proofs.VmAcctGas
 import NeoModel.Proofs.VmAcctSpecSizeRun
 import NeoModel.Proofs.ScriptCheck
@@ -446,6 +448,38 @@ example : tryBad { tries := [List.replicate 16 { hasCatch := true, hasFinally :=
     tryBad { tries := [List.replicate 15 { hasCatch := true, hasFinally := false }] } .nop (.try_ true false) = false ∧
     (findHandler [[], [], [{ hasCatch := true, hasFinally := false }]] 0).map (fun r => (r.1, r.2.1)) = some (2, true) := by
   decide
+
+/-- **try_aligned.** In every state the try machine reaches there is exactly one try stack per context of
+the invocation stack: CALL* / script loading push an empty one, RET and exception unwinding drop exactly
+the ones of the unloaded contexts (`findHandler` returns `k` and the try stacks of the remaining
+contexts; `unwind` removes `k` frames). So the model's handler search walks the contexts that
+`handleException` walks — an invariant now, not only a tie by comparing outcomes. (The model faults on a
+TRY / ENDTRY kind attached to anything but the plain instruction: `topBad`.) -/
+theorem try_aligned (t : TSt) (h : TRun t) : t.tries.length = t.g.s.frames.length := VmAcct.try_aligned h
+
+open NeoModel.VmGas in
+/-- **acct_total_z.** The termination bound WITHOUT the assumption "every SYSCALL handler charges ≥ 1":
+exactly seven system calls of the regenerated table have price 0 (`zero_priced_interops`), all others
+charge price · BaseExecFee ≥ 1. A zero-charge SYSCALL leaves the gas alone and raises the depth by at
+most one, so after `n` successful instructions, `z` of them zero-charge SYSCALLs,
+n ≤ (L+1)·(MaxInvocationStackSize+1) + 1 + 2·z. Only "the opcode byte fits the instruction" is assumed. -/
+theorem acct_total_z (L base : Nat) (hb : 1 ≤ base) (g : GSt) (n z : Nat) (h : GRunZ L base g n z) :
+    n ≤ (L + 1) * (maxDepth + 1) + 1 + 2 * z := (VmAcct.acct_total_z hb h).1
+
+set_option maxRecDepth 50000 in
+open NeoModel.VmGas in
+/-- non-vacuity: a zero-charge SYSCALL (the harness's `push`) under limit 5 is a counted step of such a run:
+n = 1, z = 1, gas still 0. -/
+example : ∃ g, GRunZ 5 5 g 1 1 ∧ g.gas = 0 := by
+  have hc : CompatZ 0x41 (.s (.generic 0 1)) 0 :=
+    ⟨by decide, ⟨fun h => by simp [Op.isRet] at h, fun h => by simp [opRET] at h⟩, fun h => absurd rfl h⟩
+  have hs : gasStep { limit := some 5, base := 5 } 0x41 (.s (.generic 0 1)) 0 none false =
+      some { s := { St.init with c := { heap := [], refs := 1 }, frames := [{ own := some [.prim], isScript := true, retCount := 1 }] },
+             gas := 0, limit := some 5, base := 5 } := by
+    have hcoeff : coeff 0x41 = 0 := coeff_syscall
+    simp [gasStep, overLimit, isAbortOp, opABORT, opABORTMSG, hcoeff, step, exec, execS, St.init, St.w, St.setW, St.cur, St.setCur, curOf, setCurOf,
+      ok, W.popN, W.pushPrims, W.push, Ctr.add, addW, Item.cid, maxStackSize]
+  exact ⟨_, GRunZ.step 0x41 _ 0 none false GRunZ.init hc hs, rfl⟩
 
 /-! ## Part 3: the static script check (Model/ScriptCheck.lean) -/
 
